@@ -172,7 +172,7 @@ def oracle(case):
     return fails
 
 
-def sample_oracle(seed):
+def sample_oracle(seed, model=None, interp=None):
     """a sample of distance-ratio lenses gives a flat H0 posterior through CosmoLikelihood — for all hyper-parameter
     values: sharp populations, and populations of finite width (the N-draw marginalisation, evaluated under one and the
     same seed at every H0: the draws do not depend on H0 either)"""
@@ -186,7 +186,8 @@ def sample_oracle(seed):
         data = lc.data_kwargs(rng, lt)
         lenses.append(dict(z_lens=rng.uniform(0.3, 0.7), z_source=rng.uniform(1.2, 2.2), likelihood_type=lt,
                            num_distribution_draws=rng.choice([10, 25]), **data))
-    model = rng.choice(["FLCDM", "FwCDM", "w0waCDM", "oLCDM"])
+    m_ = rng.choice(["FLCDM", "FwCDM", "w0waCDM", "oLCDM"])
+    model = m_ if model is None else model
     kb = dict(kwargs_lower_cosmo={"h0": 10, "om": 0.05, "w": -3, "w0": -3, "wa": -3, "ok": -0.5},
               kwargs_upper_cosmo={"h0": 200, "om": 0.9, "w": 0, "w0": 0, "wa": 3, "ok": 0.5})
     km = {}
@@ -195,7 +196,10 @@ def sample_oracle(seed):
         km = {"lambda_mst_sampling": True, "lambda_mst_distribution": "GAUSSIAN"}
         kb.update(kwargs_lower_lens={"lambda_mst": 0.5, "lambda_mst_sigma": 0.0}, kwargs_upper_lens={"lambda_mst": 1.5, "lambda_mst_sigma": 0.5})
         p = dict(p, lambda_mst=rng.uniform(0.9, 1.1), lambda_mst_sigma=rng.uniform(0.02, 0.1))
-    interp = rng.random() < 0.5
+    i_ = rng.random() < 0.5
+    interp = i_ if interp is None else interp
+    if model == "oLCDM" and abs(p.get("ok", 0.0)) < 1e-3:
+        p["ok"] = rng.choice([-1, 1]) * rng.uniform(0.05, 0.3)      # a curved model proper
     cl = CosmoLikelihood(lenses, model, km, kb, interpolate_cosmo=interp, num_redshift_interp=400)
     names = cl.param.param_list()
     vals = []
@@ -255,15 +259,18 @@ def run(ctx, res):
                 meta.append((case["ltype"], v, scaled))
     for _ in range(ctx.n(10, 80)):
         sseed = rng.randrange(2 ** 30)
+        k_ = res.distribution.get("sample_tried", 0)
+        res.count("sample_tried")
+        smodel, sinterp = ["FLCDM", "FwCDM", "w0waCDM", "oLCDM"][k_ % 4], bool((k_ // 4) % 2)      # every model x supply mode in turn
         try:
-            f = sample_oracle(sseed)
+            f = sample_oracle(sseed, smodel, sinterp)
         except Exception as e:  # noqa
             res.notes.append("sample oracle failed to run: %r" % (e,))
             continue
         res.evaluations += 1
         res.count("sample_flat_H0")
         if f:
-            res.violation("H0-scaling[sample]:flat-posterior", f, {"sample": True, "seed": sseed})
+            res.violation("H0-scaling[sample]:flat-posterior", f, {"sample": True, "seed": sseed, "model": smodel, "interp": sinterp})
     if ctx.search_mode:
         return
     outs = run_driver(lines)
@@ -280,7 +287,7 @@ def run(ctx, res):
 def replay(ctx, data):
     import random
     if data["input"].get("sample"):
-        f = sample_oracle(data["input"].get("seed", 0))
+        f = sample_oracle(data["input"].get("seed", 0), data["input"].get("model"), data["input"].get("interp"))
         return bool(f), (f or "sample oracle holds")
     # cases carry numpy data: re-generate with the recorded seed/tier
     rng = random.Random("%s-%d" % ("C19", ctx.seed))
